@@ -108,6 +108,7 @@ def lns[T](
     current_obj = evaluate(current)
     best_solution, best_obj = current, current_obj
     best_iter = 0
+    iteration = 0
 
     for iteration in range(1, max_iter + 1):
         partial = destroy(current, rng)
@@ -206,6 +207,7 @@ def alns[T](
     current_obj = evaluate(current)
     best_solution, best_obj = current, current_obj
     best_iter = 0
+    iteration = 0
 
     for iteration in range(1, max_iter + 1):
         d_idx = select_weighted(d_weights)
